@@ -23,7 +23,7 @@ build_asan() { # optional: failure is not fatal, the part is reported inconclusi
 }
 prepare_C08() { prepare_default && build_race; }
 prepare_C10() {
-  prepare_default && export VERIF_PLAIN_BIN=$CHECK_BIN && build_race || return 1
+  prepare_binding && export VERIF_PLAIN_BIN=$CHECK_BIN && build_race || return 1
   if [ "$MODE" = thorough ]; then build_asan; fi
 }
 prepare_C11() {
@@ -57,6 +57,11 @@ build_wasm() { # fresh otp.wasm + scratch copy of the JS package
   fi
   (cd "$REPO" && GOFLAGS= GOOS=js GOARCH=wasm "$GO_BIN" build $OVL -o "$S/otp-js/lib/otp.wasm" ./wasm) 2>>"$S/build.err" || { cat "$S/build.err" >&2; return 1; }
   export VERIF_JS_DIR=$S/otp-js VERIF_JS_DRIVER=$VERIF_ROOT/js/driver.js
+  # the package as committed: its own wasm_exec.js and the committed lib/otp.wasm (index.js as above)
+  if [ -f "$REPO/otp-js/lib/otp.wasm" ] && mkdir -p "$S/otp-js-committed/src" "$S/otp-js-committed/lib" && \
+     cp "$S/otp-js/src/index.js" "$S/otp-js-committed/src/index.js" && cp "$REPO/otp-js/src/wasm_exec.js" "$S/otp-js-committed/src/wasm_exec.js" && \
+     cp "$REPO/otp-js/lib/otp.wasm" "$S/otp-js-committed/lib/otp.wasm"; then export VERIF_JS_COMMITTED_DIR=$S/otp-js-committed; fi
+  return 0
 }
 build_wasmnative() { # the binding's Go sources compiled natively through an overlay (optional: failure => sub-checks inconclusive)
   REPO=$REPO VERIF_ROOT=$VERIF_ROOT python3 "$VERIF_ROOT/tools/mkwasmnative.py" "$S/wn" 2>>"$S/build.err" || return 0
@@ -77,10 +82,12 @@ prepare_C09() {
 }
 
 # harness built with the overlay that compiles the js/wasm Go sources natively (falls back to the plain harness)
-prepare_C13() {
+prepare_binding() {
   if REPO=$REPO VERIF_ROOT=$VERIF_ROOT python3 "$VERIF_ROOT/tools/mkwasmnative.py" "$S/wn" 2>>"$S/build.err" && \
      (cd "$VERIF_ROOT/harness" && GOWORK=off "$GO_BIN" build -overlay="$S/wn/overlay.json" -tags verif,verif_wasmnative -o "$S/check" ./cmd/check) 2>>"$S/build.err"; then
     CHECK_BIN=$S/check; HOOKS=on; return 0
   fi
   prepare_default
 }
+prepare_C01() { prepare_binding; }
+prepare_C13() { prepare_binding; }
